@@ -33,8 +33,17 @@ class SourceModule(Object):
     @cached_property
     def scope(self):
         # type: () -> SourceScope
-        source = Source(open(self.filename).read(), self.filename)
-        scope = extract_scope(source, self.project)
+        if getattr(self, '_loading', False):
+            # modules that star-import each other: like a partially
+            # initialized module, nothing is known about this one yet
+            return extract_scope(Source('', self.filename), self.project)
+
+        self._loading = True
+        try:
+            source = Source(open(self.filename).read(), self.filename)
+            scope = extract_scope(source, self.project)
+        finally:
+            self._loading = False
         return scope
 
     @property
